@@ -295,6 +295,59 @@ theorem pipe_total_without_expected (ops : IOps σ) (hn : NameStable ops) (w : W
     (Wrap.pipe ops w src []).2.1.finished = true := by
   simpa using lemma_pipe_total ops hn src w [] h
 
+theorem lemma_loop_isolated (ops : IOps σ) (chunk : Bytes) : ∀ (todo acc : List σ) (errd : List String),
+    (todo.map ops.name).Nodup →
+    (processLoop ops none chunk todo acc errd).1 =
+      acc.reverse ++ todo.map (fun i => if errd.contains (ops.name i) then i else (ops.eat i chunk).1) := by
+  intro todo
+  induction todo with
+  | nil => intro acc errd _; simp [processLoop]
+  | cons i rest ih =>
+    intro acc errd hnd
+    simp only [List.map_cons, List.nodup_cons] at hnd
+    obtain ⟨hni, hnd'⟩ := hnd
+    by_cases herr : errd.contains (ops.name i) = true
+    · simp only [processLoop, herr, if_true]
+      rw [ih _ _ hnd']
+      have herr' : ops.name i ∈ errd := by simpa using herr
+      simp [herr']
+    · have herr' : ops.name i ∉ errd := by simpa using herr
+      have hcongr : ∀ (e2 : List String), (∀ j ∈ rest, e2.contains (ops.name j) = errd.contains (ops.name j)) →
+          rest.map (fun j => if e2.contains (ops.name j) then j else (ops.eat j chunk).1) =
+          rest.map (fun j => if errd.contains (ops.name j) then j else (ops.eat j chunk).1) := by
+        intro e2 h
+        apply List.map_congr_left
+        intro j hj
+        rw [h j hj]
+      cases heat : ops.eat i chunk with
+      | mk i' oe =>
+        cases oe with
+        | some e =>
+          simp only [processLoop, herr, heat]
+          simp only [reduceCtorEq, if_false, Bool.false_eq_true]
+          rw [ih _ _ hnd', hcongr]
+          · simp [herr', heat]
+          · intro j hj
+            have hne : ops.name j ≠ ops.name i := fun h => hni (h ▸ List.mem_map.2 ⟨j, hj, rfl⟩)
+            simp [hne]
+        | none =>
+          simp only [processLoop, herr, heat]
+          simp only [reduceCtorEq, decide_false, Bool.false_and, if_false, Bool.false_eq_true]
+          rw [ih _ _ hnd']
+          simp [herr', heat]
+
+/-- **fault_isolated** — without an expected format, and with inspectors of pairwise different names (true
+    of every real wrapper), what one `_process_chunk` does to an inspector depends on that inspector alone:
+    it is left as it was if it had failed before, and otherwise becomes what its own `eat_chunk` makes of it --
+    whatever the other inspectors do on this chunk (raise, misbehave, finish) -/
+theorem fault_isolated (ops : IOps σ) (w : Wrap σ) (chunk : Bytes) (h : w.expected = none)
+    (hnd : (w.insps.map ops.name).Nodup) :
+    (w.processChunk ops chunk).1.insps =
+      w.insps.map (fun i => if w.errored.contains (ops.name i) then i else (ops.eat i chunk).1) := by
+  have := lemma_loop_isolated ops chunk w.insps [] w.errored hnd
+  simp only [Wrap.processChunk, h]
+  simpa using this
+
 /-- the real inspectors never change their name, so the theorems apply to them -/
 theorem realOps_nameStable : NameStable realOps := by
   intro i c
